@@ -144,20 +144,62 @@ def load_known_findings(property_id: str) -> Dict[str, Dict[str, Any]]:
     return out
 
 
+_IDENT = None
+
+
+def canonical_key(key: str) -> str:
+    """The key with the plain identifiers of its construct segments replaced by placeholders in order of appearance, so that a
+    listed finding is still recognised after a local variable has been renamed (`row_sums[subset]` and `sums[s]` are both
+    `$0[$1]`).  Rule and function segments, attribute names, called names and keywords are kept."""
+    global _IDENT
+    import keyword
+    import re
+    if _IDENT is None:
+        _IDENT = re.compile(r"(?<![\w.])([A-Za-z_][A-Za-z0-9_]*)(?![\w(])")
+    segs = key.split("|")
+    if len(segs) < 3:
+        return key
+    names: Dict[str, str] = {}
+
+    def sub(m):
+        w = m.group(1)
+        if keyword.iskeyword(w) or w in ("True", "False", "None", "np", "self", "state", "len", "int", "float", "range"):
+            return w
+        return names.setdefault(w, f"${len(names)}")
+
+    return "|".join(segs[:2] + [_IDENT.sub(sub, x) for x in segs[2:]])
+
+
 def finish(ctx: Context, evidence_path: Optional[str], replay_dir: str) -> int:
     """Print verdict lines, write evidence (validated), return the exit code."""
     known = load_known_findings(ctx.property_id)
     new: List[Finding] = []
     still_known: List[Finding] = []
+    exact = {f.key for f in ctx.findings if f.key in known}
+    # listed findings not matched exactly may be matched once each by their canonical form (locals renamed)
+    spare: Dict[str, List[str]] = {}
+    for k in known:
+        if k not in exact:
+            spare.setdefault(canonical_key(k), []).append(k)
     for f in ctx.findings:
-        (still_known if f.key in known else new).append(f)
+        if f.key in known:
+            still_known.append(f)
+            continue
+        ck = canonical_key(f.key)
+        if spare.get(ck):
+            listed = spare[ck].pop(0)
+            known[f.key] = known[listed]
+            still_known.append(f)
+            continue
+        new.append(f)
 
     for f in still_known:
         print(
             f"KNOWN-FINDING: property={ctx.property_id} {f.key} :: {f.file}:{f.line} :: "
             f"{known[f.key].get('what', f.message)}"
         )
-    absent = [k for k in known if k not in {f.key for f in still_known}]
+    matched_listed = {id(known[f.key]) for f in still_known}
+    absent = [k for k, v in known.items() if id(v) not in matched_listed]
     for k in absent:
         # informational; a listed finding that vanished is not an error (it may have been fixed)
         print(f"NOTE: listed known finding no longer present: property={ctx.property_id} {k}")
